@@ -745,6 +745,9 @@ func RunBlk(b *Blk, env0 [4]bool, choose func(n int) int, writesFor func(task, n
 	if !intsEq(o.ends0, sortedCopy(wantEnds)) {
 		o.problem = fmt.Sprintf("after the start: end events reached %v, token game expects %v", o.ends0, sortedCopy(wantEnds))
 	}
+	if !intsEq(o.first, sortedCopy(want)) {
+		o.problem = fmt.Sprintf("after the start: pending requests %v, token game expects %v", o.first, sortedCopy(want))
+	}
 	cur := o.first
 	nth := map[int]int{}
 	for len(cur) > 0 && len(o.steps) < maxSteps && o.problem == "" {
@@ -778,9 +781,6 @@ func RunBlk(b *Blk, env0 [4]bool, choose func(n int) int, writesFor func(task, n
 			o.problem = fmt.Sprintf("after answering T%d: end events reached %v, token game expects %v", t, fresh, sortedCopy(wantEnds))
 			break
 		}
-	}
-	if o.problem == "" && !intsEq(o.first, o.first) {
-		o.problem = "unreachable"
 	}
 	if o.problem == "" && len(cur) == 0 {
 		o.completed = in.WaitCease(tmoStep)
